@@ -3,7 +3,7 @@
    ALL navigation programs.  Statements only; proofs are in Text/TextReaderP.v,
    Text/TextReaderNP.v, Text/TokenizerNP.v and Text/TokenizerP.v. *)
 From Coq Require Import String List NArith ZArith Bool.
-From IonV Require Import Base.Wire Data.Ion Bin.BinReader Text.Tokenizer Text.Skipper Text.TextReader
+From IonV Require Import Base.Wire Base.Utf8 Data.Ion Bin.BinReader Text.Tokenizer Text.Skipper Text.TextReader
   Text.TextReaderP Text.TokenizerP Text.TextReaderNP Text.TokenizerNP Text.TextNum.
 Import ListNotations.
 Open Scope N_scope.
@@ -100,6 +100,22 @@ Proof. exact read_radix_shape. Qed.
 Theorem tr_parse_int_no_panic : forall v radix, radix = 10 \/ radix_shape v -> parse_int v radix <> Panic.
 Proof. exact parse_int_np. Qed.
 
+(* ---- UTF-8 ------------------------------------------------------------------------------------------------------ *)
+(* ReadValue on a symbol or string token returns valid UTF-8 (identifiers and operators are ASCII; strings,
+   quoted symbols and every segment of a long string are checked; escapes encode scalar values) *)
+Theorem tr_utf8_read_value : forall k, textual k = true ->
+  forall t, match t_read_value k t with Ok (v, _) => utf8_valid v = true | _ => True end.
+Proof. exact valid_read_value. Qed.
+Theorem tr_utf8_app : forall a b, utf8_valid a = true -> utf8_valid b = true -> utf8_valid (a ++ b) = true.
+Proof. exact utf8_app. Qed.
+(* for every input and every navigation program: every text the reader holds (the string or symbol value,
+   the field name, the annotations, every text of the symbol table in force) is valid UTF-8, so every
+   string / symbol text an accessor returns is *)
+Theorem tr_utf8 : forall pd pt inp ioerr p, V (fst (x_run pd pt (x_init inp ioerr) p [])).
+Proof. intros pd pt inp ioerr p. apply run_V, init_V. Qed.
+Theorem tr_utf8_step : forall pd pt x o, V x -> V (fst (x_op_res pd pt x o)).
+Proof. exact op_V. Qed.
+
 (* ---- progress: the fuelled loops do not run out of fuel ------------------------------------------------- *)
 (* whitespace and comments, with any comment handler, from any tokenizer state *)
 Theorem tr_progress_whitespace : forall h t, t_skip_whitespace_h h t <> OutOfFuel.
@@ -112,6 +128,9 @@ Theorem tr_progress_radix_digits : forall fuel valid w t,
 Proof. exact radix_digits_progress. Qed.
 Theorem tr_progress_skip_digits : forall c t, skip_digits c t <> OutOfFuel.
 Proof. exact skip_digits_progress. Qed.
+(* the digits of exponents and fractional seconds (no '_' separators) *)
+Theorem tr_progress_plain_digits : forall c w t, read_plain_digits c w t <> OutOfFuel.
+Proof. exact read_plain_digits_progress. Qed.
 (* the string, symbol and clob readers (escapes, line continuations, concatenated ''' segments with comments) *)
 Theorem tr_progress_strings : forall t,
   read_string t <> OutOfFuel /\ read_long_string t <> OutOfFuel /\ read_quoted_symbol t <> OutOfFuel /\
@@ -161,4 +180,11 @@ Example tokenizer_run :
   | Ok t => t_token t = tokenEOF
   | _ => False
   end.
+Proof. vm_compute. reflexivity. Qed.
+
+(* the repaired escapes: a surrogate pair is one character, a lone surrogate is an error *)
+Example surrogate_pair :
+  join_sp (snd (x_run parse_decimal_text parse_ts_text
+     (x_init (s "'\uD83D\uDE00' ""\uD800""") false) [ONext; OSymbol; ONext; OErr] []))
+  = s "T kf09f9880.-1 F e1".
 Proof. vm_compute. reflexivity. Qed.
